@@ -54,7 +54,7 @@ package rawmessagesfilter
 //@   ensures [height-forward] f.state.height >= old(f.state.height) && f.state == old(f.state) && lastRoundHeight >= old(lastRoundHeight) && (old(lastRoundHeight) <= old(f.state.height) ==> lastRoundHeight <= f.state.height)
 //@   ensures [commits-below-state] lastCommitHeight >= old(lastCommitHeight) && (old(lastCommitHeight) <= old(f.state.height) ==> lastCommitHeight <= f.state.height) && ndelivered >= old(ndelivered)
 //@   ensures [no-round-without-height-change] f.state.height == old(f.state.height) ==> lastRoundHeight == old(lastRoundHeight)
-//@   props C17 C08
+//@   props C17 C08 C07 C11
 //@   modifies state.State.height, state.State.view, rawmessagesfilter.RawMessageFilter.consensusMessagesHandler, rawmessagesfilter.RawMessageFilter.latestFutureBlockHeight, M:Int:Slice_Iface, ghost:ndelivered, ghost:delivered, ghost:lastRoundHeight, ghost:lastCommitHeight, M:S_state_HeightView:Int
 //@   requires f.state != nil && f.futureCache != nil && rawMessage != nil && ndelivered >= 0
 //@   requires [inv.cache] forall k int, i int :: has(f.futureCache, k) && 0 <= i && i < len(f.futureCache[k]) ==> f.futureCache[k][i].BlockHeight() == k && f.futureCache[k][i].InstanceId() == f.instanceId && f.futureCache[k][i].SenderMemberId() != f.myMemberId
@@ -79,7 +79,7 @@ package rawmessagesfilter
 //@   ensures [height-forward] f.state.height >= old(f.state.height) && f.state == old(f.state) && lastRoundHeight >= old(lastRoundHeight) && (old(lastRoundHeight) <= old(f.state.height) ==> lastRoundHeight <= f.state.height)
 //@   ensures [commits-below-state] lastCommitHeight >= old(lastCommitHeight) && (old(lastCommitHeight) <= old(f.state.height) ==> lastCommitHeight <= f.state.height) && ndelivered >= old(ndelivered)
 //@   ensures [no-round-without-height-change] f.state.height == old(f.state.height) ==> lastRoundHeight == old(lastRoundHeight)
-//@   props C17 C08
+//@   props C17 C08 C07 C11
 //@   modifies state.State.height, state.State.view, rawmessagesfilter.RawMessageFilter.consensusMessagesHandler, rawmessagesfilter.RawMessageFilter.latestFutureBlockHeight, M:Int:Slice_Iface, ghost:ndelivered, ghost:delivered, ghost:lastRoundHeight, ghost:lastCommitHeight, M:S_state_HeightView:Int
 //@   requires f.state != nil && f.futureCache != nil && ndelivered >= 0
 //@   requires [inv.cache] forall k int, i int :: has(f.futureCache, k) && 0 <= i && i < len(f.futureCache[k]) ==> f.futureCache[k][i].BlockHeight() == k && f.futureCache[k][i].InstanceId() == f.instanceId && f.futureCache[k][i].SenderMemberId() != f.myMemberId
